@@ -7,5 +7,5 @@ import (
 )
 
 func TestSim(t *testing.T) {
-	simrun.Main(t, map[string]simrun.World{"C18": World("C18"), "C19": World("C19")})
+	simrun.Main(t, map[string]simrun.World{"C18": World("C18"), "C19": World("C19"), "C14": WorldC14()})
 }
